@@ -221,6 +221,15 @@ def gen_unit(rng, nids, depth, maxlen):
                 chk(n, v, ind)
     L.append('}')
     # sibling blocks: the last identifier looked up in a block is the first one looked up in the next block of the same depth, where it denotes something else
+    L.append('typedef int zq9td;')
+    L.append('void reuse(void) {')
+    for j, n in enumerate(rng.sample(ids, min(len(ids), 8))):
+        # n names a typedef in the outer block; after a specifier that already gives the type, n is the declarator of a new object
+        L.append('\t{ typedef char %s[%d]; (void)sizeof(%s);' % (n, j + 2, n))
+        form = ['struct %s_s { char c[3]; } %s;' % (n[:8], n), '_Bool %s;' % n, 'zq9td %s;' % n, 'enum { zq9e%d } %s;' % (j, n), '__typeof__(int) %s;' % n, 'void *%s;' % n, 'struct %s_s2 { char c; } const %s = { 0 };' % (n[:8], n), 'union { char c; } %s;' % n][j % 8]
+        L.append('\t\t{ %s (void)sizeof(char[sizeof(%s) != %d ? 1 : -1]); }' % (form, n, 1000))
+        L.append('\t\t(void)sizeof(char[sizeof(%s) == %d ? 1 : -1]); }' % (n, j + 2))
+    L.append('}')
     L.append('void siblings(void) {')
     for j, n in enumerate(rng.sample(ids, min(len(ids), 12))):
         v = val[n]
